@@ -154,7 +154,7 @@ def is_rowwise_norm(t: Term) -> Optional[Term]:
         return None
     if t[0] == "call" and t[1] in ("numpy.sqrt",) and len(t[2]) == 1:
         inner = t[2][0]
-        if inner[0] == "call" and inner[1] == ".sum" and kw(inner, "axis", 1) in (C(1), C(-1)):
+        if inner[0] == "call" and inner[1] in (".sum", "numpy.sum") and kw(inner, "axis", 1) in (C(1), C(-1)):
             sq = inner[2][0]
             if sq[0] == "call" and sq[1] == "numpy.square":
                 return sq[2][0]
@@ -376,5 +376,7 @@ def hist_info(call: Term) -> Dict[str, Any]:
     if data is not None and data[0] == "sub" and data[2][0] not in ("slice", "const"):
         mask = data[2]
         data = data[1]
+    elif data is not None and data[0] == "call" and data[1] in ("numpy.compress", "numpy.extract") and len(data[2]) == 2:
+        mask, data = data[2][0], data[2][1]
     return {"data": data, "mask": mask, "bins": kw(call, "bins", 1), "range": kw(call, "range", 2),
             "weights": kw(call, "weights", 4)}
